@@ -17,6 +17,12 @@ use std::{path::PathBuf, time::Instant};
 #[global_allocator]
 static ALLOC: mem::Counting = mem::Counting;
 
+#[inline(never)]
+fn selfcheck_leak() {
+    let v = std::hint::black_box(vec![7u8; 1234]);
+    std::mem::forget(v);
+}
+
 fn main() {
     let args: Vec<String> = std::env::args().collect();
     if args.len() < 2 {
@@ -38,6 +44,7 @@ fn main() {
     let mut seed: u64 = std::env::var("VERIF_SEED").ok().and_then(|s| s.parse().ok()).unwrap_or(1);
     let mut threads = std::thread::available_parallelism().map(|n| n.get()).unwrap_or(8).min(16);
     let mut replay = None;
+    let mut leg_child = None;
     let mut i = 2;
     while i < args.len() {
         match args[i].as_str() {
@@ -52,6 +59,10 @@ fn main() {
             "--threads" => {
                 i += 1;
                 threads = args[i].parse().expect("threads");
+            }
+            "--leg-child" => {
+                i += 1;
+                leg_child = Some(args[i].parse().expect("runs"));
             }
             "--replay" => {
                 i += 1;
@@ -79,7 +90,7 @@ fn main() {
         let ok = rt.block_on(remoc::exec::are_threads_available());
         assert!(ok, "threads must be available in the sandbox");
     }
-    let ctx = evidence::Ctx { id, tier, seed, threads, verif_dir, started: Instant::now(), replay };
+    let ctx = evidence::Ctx { id, tier, seed, threads, verif_dir, started: Instant::now(), replay, leg_child };
     let code = match props::dispatch(&ctx) {
         Some(c) => c,
         None => {
@@ -87,6 +98,10 @@ fn main() {
             2
         }
     };
+    // Self-check of the memcheck leg's reporting path: a block that is certainly lost at exit.
+    if leg_child.is_some() && std::env::var("HARNESS_SELFCHECK_LEAK").is_ok() {
+        selfcheck_leak();
+    }
     // Abandoned (stuck) shard threads must not keep the process alive.
     std::process::exit(code);
 }
